@@ -56,10 +56,24 @@ def seeds_table():
     return "\n".join(rows)
 
 
+def harmless_table():
+    rows = ["| refactoring | files | what (written by the sub-agent) | quick checks run | result |", "|---|---|---|---|---|"]
+    for d in sorted(glob.glob(os.path.join(V, "harmless", "H*"))):
+        mp = os.path.join(d, "meta.json")
+        if not os.path.exists(mp):
+            continue
+        m = json.load(open(mp))
+        bad = [p for p, r in m["checks"].items() if r["exit"] != 0]
+        res = "all quiet (exit 0)" if not bad else "ALARM: " + ", ".join("%s %s" % (p, ("no-failing-input-found" if m["checks"][p]["violation"] and "no-failing" in m["checks"][p]["violation"][0] else "violation")) for p in bad)
+        rows.append("| %s | %s | %s | %s | %s |" % (os.path.basename(d), ", ".join(os.path.basename(f) for f in m["files"]), " ".join(m["what"].split())[:260].replace("|", "/"),
+                                                   " ".join(sorted(m["checks"])), res))
+    return "\n".join(rows)
+
+
 def main():
     p = os.path.join(V, "DESIGN.md")
     s = open(p).read()
-    for tag, fn in (("FIXED", fixed_table), ("OPEN", open_table), ("SEEDS", seeds_table)):
+    for tag, fn in (("FIXED", fixed_table), ("OPEN", open_table), ("SEEDS", seeds_table), ("HARMLESS", harmless_table)):
         a, b = "<!-- BEGIN %s -->" % tag, "<!-- END %s -->" % tag
         if a in s and b in s:
             i, j = s.index(a) + len(a), s.index(b)
